@@ -30,6 +30,9 @@ DEFS = {
     # braces and a dollar sign inside strings
     "Esc2": ("op", "query", "Esc2", 'query Esc2 { user(id: """blk "q" \\""" "# "## r#"x"# é {x} $y""") { name } search(filter: {text: "\\u00e9\\t{}#\\"#"}) { __typename } }',
              ["user", "search"], []),
+    # an operation named like a Rust keyword: whatever the generator does to make identifiers of it, the name that goes
+    # on the wire is the document's
+    "Kw": ("op", "query", "type", "query type { version count }", ["version", "count"], []),
     "UF": ("frag", None, "UF", "fragment UF on User { id name }", None, None),
     "QF": ("frag", None, "QF", "fragment QF on Q { count }", None, None),
 }
@@ -63,6 +66,7 @@ def documents():
                     out.append(("order " + " ".join(perm), list(perm), "\n".join(DEFS[k][3] for k in perm) + "\n"))
     out.append(("escapes", ["Esc"], DEFS["Esc"][3] + "\n"))
     out.append(("escapes + others", ["Alpha", "Esc", "QF"], "\n".join(DEFS[k][3] for k in ["Alpha", "Esc", "QF"])))
+    out.append(("keyword-named operation", ["Kw", "Alpha"], DEFS["Kw"][3] + "\n" + DEFS["Alpha"][3] + "\n"))
     out.append(("escapes2", ["Esc2"], DEFS["Esc2"][3] + "\n"))
     out.append(("escapes2 + others", ["Esc2", "Alpha", "Esc"], "\r\n".join(DEFS[k][3] for k in ["Esc2", "Alpha", "Esc"])))
     return out
@@ -147,7 +151,7 @@ def run(tier):
     os.makedirs(qdir, exist_ok=True)
     for desc, keys, text in docs:
         opnames = [DEFS[k][2] for k in keys if DEFS[k][0] == "op"]
-        canonical = desc.startswith("order") or desc.startswith("escapes")
+        canonical = desc.startswith("order") or desc.startswith("escapes") or desc.startswith("keyword")
         sels = []
         for normalization in ("none", "rust"):
             names = set(opnames) | {camel(n) for n in opnames} | {"Nope"}
@@ -202,6 +206,13 @@ def run(tier):
                     rep.violation("error_does_not_list_operations", label, {"missing": missing, "msg": r.get("msg")})
             elif r["status"] != "panic":
                 rep.violation("unexpected_status", label, r)
+            continue
+        if "Kw" in c["keys"]:
+            # the generated items may not even be Rust (`mod type`): read the constants from the token text
+            if r["status"] == "ok":
+                got = re.findall(r'OPERATION_NAME : & str = "([^"]*)"', r.get("tokens") or "")
+                if got != [o[2] for o in ops]:
+                    rep.violation("operation_name_modified", label, {"emitted": got, "expected": [o[2] for o in ops]})
             continue
         if r["status"] != "ok":
             rep.violation("supported_selection_rejected", label, r.get("msg") or r["status"])
